@@ -45,6 +45,13 @@ package state_machines
 //@   ensures[C19.restore.machine] result1 == nil ==> result0 != nil
 // the pool is always built from the three machines below (FromDump and Create pass exactly New(), New(), New())
 //@   trusted[C19.pool.types] result1 == nil ==> istype(result0, "*spf.SignatureProposalFSM") || istype(result0, "*dpf.DKGProposalFSM") || istype(result0, "*sif.SigningProposalFSM")
+//@ func (*github.com/lidofinance/dc4bc/fsm/fsm_pool.FSMPool).EntryPointMachine
+//@   safety C19
+//@   nosafety
+//@   requires p != nil
+//@   pure
+//@   ensures[C19.restore.machine] result1 == nil ==> result0 != nil
+//@   trusted[C19.pool.types] result1 == nil ==> istype(result0, "*spf.SignatureProposalFSM") || istype(result0, "*dpf.DKGProposalFSM") || istype(result0, "*sif.SigningProposalFSM")
 //@ func (*github.com/lidofinance/dc4bc/fsm/state_machines/signature_proposal_fsm.SignatureProposalFSM).WithSetup
 //@   nosafety
 //@   modifies spf.SignatureProposalFSM.payload, spf.SignatureProposalFSM.FSM, fsm.FSM.currentState
